@@ -748,6 +748,9 @@ def m_typed_builder_into_value(ex, st, args, dty, canon):
             c2 = s2.frames[-1]
             c2.bb, c2.idx = term.target, 0
             return NOTHING
-        r = call_fnlike(ex, st, args[1], [], cont)
+        f = args[1]
+        if isinstance(f, Tree) and f.meta is None:
+            f = Tree(f.f, f.origin, f.ty, meta=('ret', dty))     # several default closures share one position
+        r = call_fnlike(ex, st, f, [], cont)
         return NOTHING
     raise Inconclusive('typed-builder into_value on %r' % (v,))
